@@ -18,17 +18,19 @@ type C14Case struct {
 	Object bool   `json:"object"` // fields "k<i>" of an object instead of list elements
 	Pred   int    `json:"pred"`   // predicate selector for the Filter variants
 	Route  int    `json:"route"`  // construction route of the list (see listByRoute)
+	// Derived: list/object elements are user-defined derived types (embedding List/Object, registered with Init)
+	Derived bool `json:"derived,omitempty"`
 }
 
 func GenC14(t *rapid.T) *C14Case {
-	n := []int{0, 1, 2, 3, 4, 5, 6, 7, 8, 10, 12, 16, 5, 7, 9, 33, 64, 65, 100, 130}[drawIdx(t, 20, "n")]
+	n := []int{0, 1, 2, 3, 4, 5, 6, 7, 8, 10, 12, 16, 5, 7, 9, 33, 64, 65, 100, 130, 3, 4, 6, 257}[drawIdx(t, 24, "n")]
 	// a small alphabet with repetition: 2-4 kinds out of 7
 	nk := drawInt(t, 1, 4, "nk")
 	alphabet := make([]Kind, nk)
 	for i := range alphabet {
 		alphabet[i] = Kind(drawIdx(t, 7, "kind"))
 	}
-	c := &C14Case{Object: oneIn(t, 3, "obj"), Pred: drawInt(t, 0, 3, "pred"), Route: drawInt(t, 0, numListRoutes-1, "route")}
+	c := &C14Case{Object: oneIn(t, 3, "obj"), Pred: drawInt(t, 0, 3, "pred"), Route: drawInt(t, 0, numListRoutes-1, "route"), Derived: oneIn(t, 4, "derived")}
 	for i := 0; i < n; i++ {
 		c.Kinds = append(c.Kinds, alphabet[drawIdx(t, nk, "k")])
 	}
@@ -174,7 +176,7 @@ func checkListViews(c *C14Case, st *Stats) error {
 	shape := V{K: KList}
 	firstOfKind := map[Kind]bool{}
 	for i, k := range c.Kinds {
-		vals[i] = elemValueZ(k, i, !firstOfKind[k] && c.Pred%2 == 0)
+		vals[i] = deriveIf(c.Derived, elemValueZ(k, i, !firstOfKind[k] && c.Pred%2 == 0))
 		firstOfKind[k] = true
 		if sv, err := Snap(vals[i]); err == nil && k != KList && k != KObject {
 			shape.L = append(shape.L, sv)
@@ -435,7 +437,7 @@ func checkObjectViews(c *C14Case, st *Stats) error {
 	byKind := map[Kind]map[string]any{}
 	for i, k := range c.Kinds {
 		key := fmt.Sprintf("k%d", i)
-		vals[key] = elemValueZ(k, i, !firstSeen[k] && c.Pred%2 == 0)
+		vals[key] = deriveIf(c.Derived, elemValueZ(k, i, !firstSeen[k] && c.Pred%2 == 0))
 		firstSeen[k] = true
 		if !(c.Route%3 == 1 && k == KInt) {
 			o.Set(key, vals[key])
@@ -580,4 +582,22 @@ func init() {
 	Register("C14",
 		"lists and objects of 0-16 (occasionally 33-130) elements, built through drawn construction routes (Add, NewList, NewListFrom, NewListOf+Replace, Concat, SubList, typed-slice origin + Insert, grow-and-shrink; objects optionally from a map[string]int), whose kind sequence is drawn from an alphabet of 1-4 of the seven kinds with repetition (several elements of one kind interleaved with others, kinds absent, empty container); element values are pairwise distinct and encode their position (the first element of each scalar kind may be the zero value). For every kind X of {object, list, string, bool, int, float}: XSlice, ForEachX (callback log), MapXs (injective tag), FilterXs (predicates all/none/alternate/by value; identity for containers), ReduceXs with non-commutative folds, AllXs and AllNumeric, plus the untyped ForEach/ForEachValue/Map/MapValues/Filter/Reduce (index and value, in order, once); for objects ForEach/ForEachValue/ForEachX as multisets and Map/MapValues/MapXs storing under the same key and nothing else. The method table is compared with the interface by reflection (unknown view methods are reported as unclassified). Non-trivial = some kind occurs at least twice with an element of another kind between. Distinct = distinct FNV-64a hash of the case JSON.",
 		GenC14, CheckC14)
+}
+
+// deriveIf wraps a List / Object value in a registered user-defined derived type.
+func deriveIf(derived bool, x any) any {
+	if !derived {
+		return x
+	}
+	switch v := x.(type) {
+	case at.List:
+		d := &DL1{List: v}
+		d.Init(d)
+		return d
+	case at.Object:
+		d := &DO1{Object: v}
+		d.Init(d)
+		return d
+	}
+	return x
 }
